@@ -32,7 +32,7 @@ LOCAL C19Rbits(e) ==
       tb     == FromInt(e.tb)
       precok == ~fixed \/ e.prec = tb
       lenok  == Le(e.bl, e.prec)
-      panicking == e.form \in {"uint.random_bits"}
+      panicking == e.form \in {"uint.random_bits", "int.random_bits"}
   IN IF ~precok THEN e.k = "err" /\ e.e = "PrecisionMismatch"
      ELSE IF ~lenok THEN (IF panicking THEN e.k = "panic" ELSE e.k = "err" /\ e.e = "BitLengthTooLarge")
      ELSE LET bl  == ToInt(e.bl)
